@@ -340,3 +340,8 @@ T("np.histogramdd", "array-sample|(3,3)", lambda s: np.histogramdd(s, bins=2), {
 T("np.histogramdd", "array-sample,density|(6,2)", lambda s: np.histogramdd(s, bins=(2, 3), density=True), {"s": I("X", (6, 2))}, cls="other")
 T("np.histogramdd", "array-sample,1d|(6,)", lambda s: np.histogramdd(s, bins=3), {"s": I("X", (6,))}, cls="other")
 T("np.histogramdd", "array-sample,weights|(5,2)", lambda s, w: np.histogramdd(s, bins=2, weights=w), {"s": I("X", (5, 2)), "w": I("W", (5,), "pos")}, cls="other")
+
+# ---- limits of np.histogram_bin_edges given as quantities (hunt round: the edges came back in unit**2) ------------------
+T("np.histogram_bin_edges", "range-q|(6,)", lambda a, lo, hi: np.histogram_bin_edges(a, bins=3, range=(lo * 8, hi * 8)), {"a": I("X", (6,)), "lo": I("X", (), "neg"), "hi": I("X", (), "pos")})
+T("np.histogram_bin_edges", "range-q-positional|(6,)", lambda a, lo, hi: np.histogram_bin_edges(a, 3, (lo * 8, hi * 8)), {"a": I("X", (6,)), "lo": I("X", (), "neg"), "hi": I("X", (), "pos")})
+T("np.histogram_bin_edges", "weights|(6,)", lambda a, w: np.histogram_bin_edges(a, bins=3, weights=w), {"a": I("X", (6,)), "w": I("W", (6,), "pos")})
